@@ -332,7 +332,7 @@ func newHTTPOp() *op12 {
 	}
 	cv := j2t.NewBinaryConv(conv.Options{EnableHttpMapping: true, ReadHttpValueFallback: true})
 	return &op12{name: "j2t.http", isErr: []bool{false, false, true, false},
-		inputs: [][]byte{mk(`{"plain":"a"}`, "q=1&n=7", "5"), mk(`{"plain":"bb","q":"from-body"}`, "n=8&o5=x", "6"), mk(`{"plain":"c","n":3}`, "o5=y", ""), mk(`{"plain":"dddd"}`, "q=zz&n=9&o5=w", "77")},
+		inputs: [][]byte{mk(`{"plain":"a"}`, "q=1&n=7", "5"), mk(`{"plain":"bb","q":"from-body"}`, "n=8&o5=x", "6"), mk(`{"plain":"c","n":3}`, "o5=y", ""), mk(``, "q=zz&n=9&o5=w", "77")}, // (no body at all: every field comes from the request)
 		f: func(in []byte) ([]byte, error) {
 			var m map[string]string
 			json.Unmarshal(in, &m)
